@@ -22,7 +22,7 @@ def sh(cmd, cwd=None, env=None, timeout=3600):
     return p.returncode, p.stdout + p.stderr
 
 
-def run_one(sid, all_checks=False, tier='quick'):
+def run_one(sid, all_checks=False, tier='quick', seeds=()):
     d = os.path.join(VERIF, 'seeded', sid)
     meta = json.load(open(os.path.join(d, 'meta.json')))
     wt = '/tmp/pyasn1-verif-seed-%s' % sid
@@ -62,6 +62,13 @@ def run_one(sid, all_checks=False, tier='quick'):
                                    'seconds': round(time.time() - t0, 1)}
         own = result['checks'][meta['property']]
         result['caught'] = own['exit'] == 1 and own['violations'] > 0
+        # the same check under other seeds: is the detection luck?
+        result['caught_by_seed'] = {'0': result['caught']}
+        for sd in seeds:
+            env2 = dict(env, VERIF_SEED=str(sd))
+            rc, out = sh([os.path.join(VERIF, 'check'), meta['property'], tier], cwd=VERIF, env=env2, timeout=7200)
+            viol = [l for l in out.splitlines() if l.startswith('VIOLATION')]
+            result['caught_by_seed'][str(sd)] = rc == 1 and len(viol) > 0
     finally:
         sh(['git', '-C', '/repo', 'worktree', 'remove', '--force', wt])
         shutil.rmtree(wt, ignore_errors=True)
@@ -72,6 +79,11 @@ def run_one(sid, all_checks=False, tier='quick'):
 def main(argv):
     all_checks = '--all-checks' in argv
     tier = 'thorough' if '--tier' in argv and argv[argv.index('--tier') + 1] == 'thorough' else 'quick'
+    seeds = ()
+    if '--seeds' in argv:
+        i = argv.index('--seeds')
+        seeds = tuple(int(x) for x in argv[i + 1].split(','))
+        argv = argv[:i] + argv[i + 2:]
     ids = [a for a in argv if not a.startswith('--') and a not in ('quick', 'thorough')]
     root = os.path.join(VERIF, 'seeded')
     if not ids:
@@ -81,10 +93,11 @@ def main(argv):
     if os.path.exists(path):
         results = json.load(open(path))
     for sid in ids:
-        r = run_one(sid, all_checks, tier)
+        r = run_one(sid, all_checks, tier, seeds)
         results[sid] = r
-        print('%-28s %-4s tests_pass=%s demo_fails=%s caught=%s %s' % (
+        print('%-28s %-4s tests_pass=%s demo_fails=%s caught=%s seeds=%s %s' % (
             sid, r.get('property'), r.get('repo_tests_pass'), r.get('demo_fails_with_change'), r.get('caught'),
+            ''.join('%s:%s ' % (k, 'Y' if v else 'N') for k, v in sorted(r.get('caught_by_seed', {}).items())),
             r.get('error', '') or (r.get('checks', {}).get(r.get('property'), {}).get('first', '')[:120])))
         json.dump(results, open(path, 'w'), indent=1, sort_keys=True)
     return 0
